@@ -205,6 +205,26 @@ def r2_union_walk(cx):
         pd += [a for a in walk_body(fn.body) if isinstance(a, ast.Assign) and isinstance(a.value, ast.Call) and call_name(a.value) == "dict.fromkeys" and len(a.value.args) == 2]
         ok = len(st) == 1 and bool(pd) and not [1 for e, p_, o in guards_ex(st[0]) if o != 'exit-raise']
         cx.require(ok, st[0] if st else fn, "every given pattern is stored under FILTERS[component] (merged with the existing ones)", construct=short(st[0]) if st else "(no FILTERS[comp].update)")
+        # 'no matching line is dropped unless a filter's match budget is used up ... no matter in which order registrations happened': a filter string
+        # registered twice keeps the LARGER budget (None = unlimited): the value stored must come out of a max() over the old and the new budget
+        if st:
+            nested = dict((f_.name, f_) for f_ in ast.walk(af) if isinstance(f_, FUNC_TYPES) and f_ is not af)
+            todo, seen_, uses_max = [st[0]], set(), False
+            while todo:
+                e_ = todo.pop()
+                for c_ in [x for x in ast.walk(e_) if isinstance(x, ast.Call)]:
+                    nm_ = call_name(c_)
+                    if nm_ == "max":
+                        uses_max = True
+                    if nm_ in nested and nm_ not in seen_:
+                        seen_.add(nm_)
+                        todo.append(nested[nm_])
+                for n_ in [x for x in ast.walk(e_) if isinstance(x, ast.Name) and isinstance(x.ctx, ast.Load)]:
+                    for d_ in assigns_to(fn, n_.id):
+                        if id(d_) not in seen_ and getattr(d_, "value", None) is not None:
+                            seen_.add(id(d_))
+                            todo.append(d_.value)
+            cx.require(uses_max, st[0], "a filter registered again keeps the larger of the two match budgets (max over old and new), whichever came first", construct=short(st[0], 90))
 
 
 def r3_prefilter(cx):
